@@ -7,7 +7,7 @@ export CARGO_NET_OFFLINE=true
 [ -f harness/Cargo.lock ] || cp /repo/Cargo.lock harness/Cargo.lock
 (cd harness && cargo build --offline -q && cargo build --offline -q --release)
 ANYDB_HARNESS_BIN="$PWD/harness/target/debug/anydb_verif_harness" python3 tools/gen_consts.py
-[ -f tools/rs2v.py ] && python3 tools/rs2v.py || true
+for g in tools/gen_*.py; do [ "$g" = tools/gen_consts.py ] || python3 "$g"; done
 python3 tools/mkcoqproject.py
 timeout 3000 make -C coq -j16
 sh ocaml/build.sh
